@@ -4,6 +4,9 @@ import json, os, subprocess, sys
 ROOT = os.path.dirname(os.path.dirname(os.path.abspath(__file__)))
 
 CLAIMED = {
+ "C18": ("exploration", "model-based property testing (proptest) over protocol sessions with generated message-delivery schedules and withheld messages + exhaustive enumeration of all delivery orders for 2 and 3 parties; oracles: cross-party equality, key relations under the harness-summed secret key, ordinary decryptor",
+         "Generated-history search: sessions of 1..4 protocol runs (collective public key, two-round relinearization keys with per-party interleaving of the rounds, secret-key reveal, collective decryption, key switch, public-key switch, cipher->shares, shares->cipher and their composition) among 2..6 parties sharing one tape, over BFV/BGV/CKKS contexts with 2..4 primes, inputs at every level and in either representation. The n(n-1) messages of every round are delivered in a generated order (all orders exhaustively for n=2,3), optionally with one message withheld. Every party's output must be identical; the collective keys must satisfy k0 + k1*s [- P*s^2] = bounded error for the secret-key sum the harness adds up itself, and must work with an ordinary encryptor / evaluator / decryptor; plaintexts must survive whenever the worst-case noise model says they must; shares must add up to the slots; exactly the party with an incomplete inbox must refuse.",
+         "Trusted: noise model DESIGN.md §4 extended with secret norm n and multiparty key error 2nB(Nn+1); shares->cipher is observed at party 0 (the aggregating party of the documented usage).", "DESIGN.md §6 C18"),
  "C20": ("exploration", "property-based testing (proptest) over generated shapes + exhaustive small shapes, differential against u128 / f64 reference matrix products and cross-correlations",
          "Generated-input search: nine pipelines (coefficient-packing matmul forward / reverse / CKKS with three objectives, output packing, bias re-encoding and selected-term transport; BOLT cp, cc_cr, cc_dc; conv2d forward / reverse / CKKS) on shapes from 1 up to several times the slot count, so that splits along every dimension (image height included) and partial last blocks occur, with boundary-biased values; every (m,r,n) <= 3 (thorough <= 6, three degrees) exhaustively; decode(encode(outputs)) round trips; the RNS-plaintext wrapper against big-integer arithmetic modulo the product of its plain moduli. Two genuine defects were found and fixed (conv2d weight buffer; data-dependent panic in decrypt_outputs_bfv when trailing outputs are zero).",
          "Trusted: u128 / f64 reference implementations; fixed generous parameter family with a per-case noise guard.", "DESIGN.md §6 C20"),
